@@ -13,6 +13,7 @@ import DSymVerif.Proofs.StabilizerCore
 import DSymVerif.Proofs.StabilizerWords
 import DSymVerif.Proofs.StabilizerTotal
 import DSymVerif.Proofs.LowIndexValid
+import DSymVerif.Proofs.LowIndexGeneral
 import DSymVerif.Proofs.CosetBfs
 
 namespace DSymVerif.D3
@@ -265,14 +266,14 @@ theorem actsOn_of_valid {tab : Tab} {n : Nat} {rels subs : List (List Int)}
 
 /-! ### the tables yielded by the low-index model -/
 
-/-- C12's `cosetTables_valid` in the vocabulary of this module -/
+/-- C12's `extract_valid` (arbitrary relators) in the vocabulary of this module -/
 theorem lowIndex_valid (n : Nat) (rels : List (List Int)) (k fuel : Nat)
-    (hcr : ∀ ρ ∈ rels, ρ = [] ∨ FWP.CR ρ) (hlet : ∀ w ∈ rels, ∀ x ∈ w, x ∈ allGensOf n)
+    (hlet : ∀ w ∈ rels, ∀ x ∈ w, x ∈ allGensOf n)
     (hf : (BT.dfs (btProblem n (expandedRelatorSet rels) k) (LowIndexP.height k) (.ok (Table.new n))).length ≤ fuel) :
     ∀ x ∈ cosetTables n rels k fuel, ∀ t', x = .ok t' →
       ∃ tab, tabOf t' = .ok tab ∧ validTable tab n rels [] = true ∧ tab.size ≤ max k 1 := by
   intro x hx t' hxt
-  obtain ⟨v, h1, h2, h3⟩ := cosetTables_valid n rels k fuel hcr hlet hf x hx t' hxt
+  obtain ⟨v, h1, h2, h3⟩ := CanonP.cosetTables_valid_all n rels k fuel hlet hf x hx t' hxt
   exact ⟨viewTab v, tabOf_eq_viewTab h1, h2, h3⟩
 
 end DSymVerif.D3
